@@ -130,7 +130,8 @@ impl Prop for C15 {
                 // verbatim material (asm bodies, off regions) with trailing blanks, comments and all three
                 // line-end styles: cursor arithmetic over whitespace that is copied, not generated
                 let body = *rng.pick(super::c07::ASM_BODIES);
-                let text = match rng.below(5) {
+                let text = match rng.below(6) {
+                    5 => "a; // c\n// d\nb; // e\n  // f\n{ g }\nc;\n".to_string(),
                     // no final line break, last token a line comment inside an open region / after code
                     3 => "begin\n  A := 1; // pasfmt off\n  B   :=   2; // x".to_string(),
                     4 => "begin\n  A   :=  1;\nend. // done".to_string(),
